@@ -221,6 +221,22 @@ Qed.
 Lemma ry_commit_sigs : forall w b, rp_sigs (rp_c (rp_commit w b)) = rp_sigs (rp_c w).
 Proof. intros w b. unfold rp_commit. destruct (rp_apply_log _ _). reflexivity. Qed.
 
+
+(* the part of the invariant that does not depend on the stage: used while the last chunk is being re-written *)
+Definition ry_pre (w : rp_w) (st : rw_st) : Prop :=
+  In st (rw_runs false f pos (rw_st0 f) (rev (rp_log w))) /\
+  rw_g st = rp_file (rp_w_io w) /\ rw_n st = rp_flen (rp_w_io w) /\ rw_n st = rp_len (rw_g st).
+Lemma ry_pre_commit : forall w b st st',
+  ry_pre w st -> In st' (rw_runs false f pos st (rev (wm_rlog (wm_b_raw b)))) -> ry_pre (rp_commit w b) st'.
+Proof.
+  intros w b st st' (A1 & A3 & A4 & A5) Hin.
+  pose proof (rw_runs_file _ _ _ _ _ _ Hin) as (Hfile & _ & _).
+  pose proof (rw_runs_len _ _ _ _ _ _ Hin A5) as Hlen.
+  unfold rp_commit. rewrite rw_apply_log_fold. rewrite <- A3, <- A4, <- Hfile.
+  unfold ry_pre. cbn [rp_log rp_w_io rp_c rp_io_ rp_file rp_flen].
+  split; [rewrite rev_app_distr; eapply rw_runs_app; eauto |]. split; [reflexivity |]. split; [reflexivity | exact Hlen].
+Qed.
+
 (* the raw of the writer model built from the reader's *)
 Lemma ry_wm_raw_mk : forall w ho, wm_b_raw (rp_wm_base w ho) =
   wm_mk_raw (rp_fpos (rp_r (rp_w_io w))) (rp_fend (rp_r (rp_w_io w))) (rp_offset (rp_r (rp_w_io w))) (rp_hdr (rp_r (rp_w_io w)))
